@@ -6,6 +6,7 @@ from common import Case
 LAYOUTS = {  # name: (ksz, ksigned, vsz)
     'u64u64': (8, False, 8), 'u32u32': (4, False, 4), 'u8u64': (1, False, 8),
     'u64u8': (8, False, 1), 'u16u32': (2, False, 4), 'i64u16': (8, True, 2), 'ckey': (8, False, 8),
+    'u8u8': (1, False, 1), 'u16u16': (2, False, 2),
 }
 
 def key_range(lay):
@@ -695,7 +696,7 @@ def podstr_history(rng, cid, n=None):
         else:
             raw = bytes(rng.choice([0, 0x41, 0x80, 0xc3, 0xa9, 0xe2, 0xff, 0x7f]) for _ in range(rng.randint(0, n + 2)))
             ops.append('copysl %s' % hx(raw))
-        ops += ['asstr', 'disp']
+        ops += ['asstr', 'disp', 'asstru']
         if rng.random() < 0.3:
             ops.append('load %s' % hx(bytes(rng.randint(0, 3))))
     ops.append('load -')
@@ -729,9 +730,12 @@ def pod_cases(rng, prefix_id):
             ops.append('load %d %s' % (sz, hx(data)))
             val = bytes(rng.randint(0, 255) for _ in range(sz))
             ops.append('loadmut %d %s %s' % (sz, hx(data), hx(val)))
+        for off in (0, 1, 2, 3, 4, 5, 8, 12):
+            data = bytes(rng.randint(1, 255) for _ in range(sz + 9))
+            ops.append('loadoff %d %d %s' % (sz, off, hx(data)))
     out.append(Case(prefix_id + 'load', 'pod', {}, ops, {'stream': 'B'}))
     ops = []
-    for sz in (1, 4, 8, 32):
+    for sz in (1, 2, 4, 8, 32):
         pats = [bytes(sz), b'\xff' * sz, b'\x01' + bytes(sz - 1), bytes(sz - 1) + b'\x01', b'\xff' * (sz - 1) + b'\xfe']
         pats += [bytes(rng.randint(0, 255) for _ in range(sz)) for _ in range(6)]
         for pt in pats:
